@@ -1,4 +1,5 @@
 import QuaiVerif.Model.Etx
+import QuaiVerif.Model.Create
 import QuaiVerif.Gen.EtxExits
 /-
 C05 — Sending value off-chain is all-or-nothing at the origin.
@@ -133,3 +134,46 @@ def exIn : EtxIn where
 example : opETX exCfg exIn = { status := some 1, debit := 43000, etx := some (1000, 0, 21000) } := by decide
 
 end QuaiVerif.Etx
+
+/-! ### contract creation frames -/
+namespace QuaiVerif.Create
+
+/-- **C05 (creation is all-or-nothing)** a creation either reports failure and leaves the state exactly as it was -
+no debit, no outbound ETX, no account - or reports success, and then the creator was debited exactly the endowment
+and exactly the constructor's ETX (if any) was recorded. -/
+theorem C05_create_all_or_nothing (s : St) (endow ev : Nat) (emit : Bool) (e : Ending) :
+    (create s endow ev emit e = (s, false)) ∨
+    ((create s endow ev emit e).2 = true ∧ endow ≤ s.creator ∧ e.accepted = true ∧
+      (create s endow ev emit e).1.creator = s.creator - endow ∧
+      (create s endow ev emit e).1.etxs = (if emit then s.etxs ++ [ev] else s.etxs)) := by
+  unfold create
+  by_cases h1 : s.creator < endow
+  · left; simp [h1]
+  · by_cases h2 : e.accepted = true
+    · right; simp [h1, h2, inner]; omega
+    · left; simp [h1, h2]
+
+/-- a creation whose constructor result is not acceptable (REVERT, error, 0xEF prefix, oversized code) never succeeds -/
+theorem C05_create_rejected_endings_fail (s : St) (endow ev : Nat) (emit : Bool) (e : Ending) (h : e.accepted = false) :
+    create s endow ev emit e = (s, false) := by
+  unfold create; split <;> simp [h]
+
+/-- **C02 (creation creates no value)** what the creator, the created account and the recorded ETXs hold together is
+unchanged by a creation, provided the constructor sends no more than the account holds. -/
+theorem C02_create_conserves_value (s : St) (endow ev : Nat) (emit : Bool) (e : Ending) (hev : ev ≤ s.created + endow) :
+    total (create s endow ev emit e).1 = total s := by
+  unfold create
+  by_cases h1 : s.creator < endow
+  · simp [h1]
+  · by_cases h2 : e.accepted = true
+    · simp only [h1, h2, if_true, if_false, total, inner]
+      cases emit
+      · simp; omega
+      · simp [List.sum_append]; omega
+    · simp [h1, h2]
+
+example : create ⟨500, 0, false, []⟩ 300 120 true .code = (⟨200, 180, true, [120]⟩, true) ∧
+          create ⟨500, 0, false, []⟩ 300 120 true .ef = (⟨500, 0, false, []⟩, false) ∧
+          create ⟨100, 0, false, []⟩ 300 120 true .stop = (⟨100, 0, false, []⟩, false) := by decide
+
+end QuaiVerif.Create
